@@ -716,6 +716,17 @@ fn boundary_residues(m: u32) -> Vec<i64> {
             v.push(x);
         }
     }
+    // worst cases of the Euclidean algorithm (inverse / division): residues next to M/phi and M/phi^2, whose continued
+    // fraction with M has only small partial quotients, so the number of division steps is maximal (about 1.44*log2 M)
+    let phi = 0.618_033_988_749_894_9_f64;
+    for base in [(mm as f64 * phi) as i64, (mm as f64 * phi * phi) as i64, (mm as f64 * (1.0 - phi * phi * phi)) as i64] {
+        for d in -2..=2i64 {
+            let x = base + d;
+            if x >= 0 && x < mm && !v.contains(&x) {
+                v.push(x);
+            }
+        }
+    }
     v
 }
 
